@@ -37,7 +37,7 @@ def run(ctx):
     }
     for fn, gl in guards.items():
         sites = solver.call_blocks(SOLVER + fn)
-        ctx.floor('R05.1', len(sites), 1, f'call sites of {fn} in run_scheduling_solver')
+        ctx.floor('R05.1', len(sites), 1, 'call sites of {fn} in run_scheduling_solver')
         for c in sites:
             t = solver.term[c]
             # worker argument: the argument whose type is &Worker
